@@ -47,6 +47,84 @@ Proof.
   - induction ch as [|x r IHr]; cbn; [constructor|]. apply Forall_app. split; [apply bypass_is_inherited|exact IHr].
 Qed.
 
+(* ------------------------------------------------------------------ relay admission *)
+(* once the bypass flag is on the context, no writer below admits anything — its own denial or one it
+   relays — so nothing learnt anywhere below is recorded (as long as no writer above admits) *)
+Lemma node_perm_bypass m cd me cs rc raw :
+  exists m', node_perm (mk_dctx m true) cd me cs rc raw = (mk_dctx m' true, snd (node_perm (mk_dctx m true) cd me cs rc raw)) /\
+             dp_create (snd (node_perm (mk_dctx m true) cd me cs rc raw)) = false.
+Proof. unfold node_perm. cbn. eexists. split; [reflexivity|]. destruct cs, m, raw, me, cd, rc; reflexivity. Qed.
+
+Lemma bypass_records_nothing pol t : forall m, Forall (fun r => r = false) (tree_records pol (mk_dctx m true) false t).
+Proof.
+  induction t as [cd remote opts res_cd ch IH] using rtree_ind2. intros m. cbn [tree_records].
+  match goal with |- context [node_perm (mk_dctx m true) ?a ?b ?c ?d ?e] =>
+    destruct (node_perm_bypass m a b c d e) as [m' [E F]]; rewrite E; rewrite F end.
+  cbn [orb]. rewrite andb_false_r.
+  constructor; [reflexivity|].
+  induction ch as [|x r IHr]; cbn; [constructor|].
+  inversion IH; subst. apply Forall_app. split; [apply H1|apply IHr; assumption].
+Qed.
+
+(* THE PROPERTY'S CLAUSE ON CREATION, with the relay: a tree rooted at a query that carried CD or a subnet
+   option records no shared denial at all — not through the node that learnt it, not through any writer
+   that relays it on the way up, for every policy, shape, depth, flags and response CD bits below *)
+Lemma node_perm_isolated ctx cd me cs rc raw :
+  cd || raw = true ->
+  exists m', node_perm ctx cd me cs rc raw = (mk_dctx m' true, snd (node_perm ctx cd me cs rc raw)) /\
+             dp_create (snd (node_perm ctx cd me cs rc raw)) = false.
+Proof.
+  intros H. unfold node_perm. destruct ctx as [mk by_]. cbn. eexists. split.
+  - f_equal. f_equal. destruct by_, cd, mk, raw, me; try reflexivity; discriminate.
+  - destruct cs, mk, by_, raw, me, cd, rc; try reflexivity; discriminate.
+Qed.
+
+Lemma isolated_tree_records_nothing pol t ctx :
+  root_isolated t = true -> Forall (fun r => r = false) (tree_records pol ctx false t).
+Proof.
+  destruct t as [cd remote opts res_cd ch]. cbn [root_isolated tree_records]. intros H.
+  match goal with |- context [node_perm ctx ?a ?b ?c ?d ?e] =>
+    destruct (node_perm_isolated ctx a b c d e H) as [m' [E F]]; rewrite E; rewrite F end.
+  cbn [orb]. rewrite andb_false_r.
+  constructor; [reflexivity|].
+  induction ch as [|x r IHr]; cbn; [constructor|]. apply Forall_app. split; [apply bypass_records_nothing|exact IHr].
+Qed.
+
+(* what is recorded for the denial learnt at the root of a (sub)tree: its response must not have CD set,
+   and its own writer or a writer above admits *)
+Lemma records_head pol ctx above cd remote opts res_cd ch :
+  exists p rest_p rest_r,
+    tree_perms pol ctx (RNode cd remote opts res_cd ch) = p :: rest_p /\
+    tree_records pol ctx above (RNode cd remote opts res_cd ch) = (negb res_cd && (above || dp_create p)) :: rest_r.
+Proof.
+  cbn [tree_perms tree_records].
+  destruct (node_perm ctx cd _ _ res_cd _) as [ctx' p]. eexists. eexists. eexists. split; reflexivity.
+Qed.
+
+(* below a writer that admits, every denial whose proof has CD clear is recorded, whatever the flags of
+   the nodes in between and of the node that learnt it (CD=1 sub-queries, inherited bypass included) *)
+Lemma relayed_below_an_admitting_writer pol t : forall ctx,
+  match t with RNode _ _ _ res_cd _ => hd true (tree_records pol ctx true t) = negb res_cd end.
+Proof. destruct t as [cd remote opts res_cd ch]. intros ctx. cbn [tree_records]. destruct (node_perm _ _ _ _ _ _). cbn. rewrite andb_true_r. reflexivity. Qed.
+
+(* the two trees of seeds 4 and 7 (session 5) and their counterpart: the leaf's own writer refuses
+   (dp_create = false: CD=1 leaf / inherited bypass) and the denial is recorded all the same, through the
+   first alias' / the root's writer; with the proof's own CD bit set nothing is recorded *)
+Example relay_examples :
+  let c := mk_ipb 16 42545467968902514347457477332583654727 in
+  let i := mk_ipb 16 281472812450047 in
+  let t4 := RNode false c None false [RNode false i (Some []) false [RNode false i (Some []) true [RNode true i (Some []) false []]]] in
+  let t7 := RNode false c (Some []) false [RNode false i (Some []) true [RNode true i (Some []) false [RNode false i (Some []) false []]]] in
+  let tc := RNode false c (Some []) false [RNode false i (Some []) false [RNode false i (Some []) true []]] in
+  let pol := policy_of (mk_bargs true 0 0 0 0 []) in
+  map dp_create (tree_perms pol (mk_dctx false false) t4) = [true; true; false; false] /\
+  tree_records pol (mk_dctx false false) false t4 = [true; true; false; true] /\
+  map dp_create (tree_perms pol (mk_dctx false false) t7) = [true; false; false; false] /\
+  tree_records pol (mk_dctx false false) false t7 = [true; false; true; true] /\
+  map dp_create (tree_perms pol (mk_dctx false false) tc) = [true; true; false] /\
+  tree_records pol (mk_dctx false false) false tc = [true; true; false].
+Proof. vm_compute. repeat split; reflexivity. Qed.
+
 (* ------------------------------------------------------------------ the byte ladder *)
 (* whatever the policy (also none at all): a wire-born query that carried a subnet option or CD gets
    nothing from the shared denial state on the byte ladder *)
